@@ -396,13 +396,19 @@ fn differential(a: &Args, rng: &mut Rng, sink: &mut Sink) -> u64 {
         };
         let mut data = String::new();
         while data.len() < target {
-            match rng.below(6) {
+            // every third stream also carries lone CR and CRLF line breaks (and LF right after CR)
+            let crs = i % 3 == 1;
+            match rng.below(if crs { 9 } else { 6 }) {
                 0 => data.push('\n'),
                 1 => data.push(*rng.pick(&WIDE)),
                 2 => data.push_str("key: value\n"),
+                6 => data.push('\r'),
+                7 => data.push_str("\r\n"),
+                8 => data.push_str("k: v\r"),
                 _ => data.push((b'a' + rng.below(26) as u8) as char),
             }
         }
+        if data.contains('\r') { d.sink.count("gen.ring_stream_with_cr"); }
         let consume = match rng.below(4) { 0 => 0, 1 => data.len() + 5, _ => rng.below(data.len() + 1) };
         let read_size = *rng.pick(&[1usize, 3, 7, 64, 1000, 8192]);
         let inner_chunk = *rng.pick(&[1usize, 2, 5, 100, 4096, 100000]);
@@ -419,6 +425,22 @@ fn differential(a: &Args, rng: &mut Rng, sink: &mut Sink) -> u64 {
         let edge2 = format!("{}\n{}\nk: v\n", "x".repeat(extra + 1), "é".repeat(h::RING_BUFFER_SIZE / 2 - 3));
         d.ringaligned(edge2.as_bytes(), edge2.len(), 7, 5);
         d.ringrun(edge2.as_bytes(), edge2.len(), 7, 5);
+        // the same edges with a lone CR, a CRLF pair (evicted together, or split: CR evicted and LF
+        // retained as the first byte), CR CR LF, and CR as the very last byte read
+        for brk in ["\r", "\r\n", "\r\r\n", "\n\r", "\r\r"] {
+            for shift in 0..=3usize {
+                let tail_len = (h::RING_BUFFER_SIZE + 1).saturating_sub(shift);
+                let edge = format!("{}{brk}{}", "x".repeat(extra), "y".repeat(tail_len));
+                d.ringaligned(edge.as_bytes(), edge.len(), 1000, 100000);
+                d.ringrun(edge.as_bytes(), edge.len(), 1000, 100000);
+                let edge3 = format!("a: 1{brk}{}{brk}k: v{brk}z: 2{brk}", "é".repeat((h::RING_BUFFER_SIZE - shift) / 2));
+                d.ringaligned(edge3.as_bytes(), edge3.len(), 7, 5);
+                d.ringrun(edge3.as_bytes(), edge3.len().saturating_sub(extra), 64, 4096);
+            }
+        }
+        let cr_last = format!("{}\r", "z".repeat(h::RING_BUFFER_SIZE + extra));
+        d.ringaligned(cr_last.as_bytes(), cr_last.len(), 64, 4096);
+        d.ringrun(cr_last.as_bytes(), cr_last.len(), 64, 4096);
     }
     d.nontrivial.len() as u64
 }
@@ -839,6 +861,40 @@ fn oracle(a: &Args, rng: &mut Rng, sink: &mut Sink) -> (u64, BTreeMap<String, u6
         if i % 2 == 0 { run!(HashMap<String, i32>, "map"); }
         if doc.starts_with("p:") || i % 7 == 0 { run!(HasPicky, "picky"); }
     }
+    // long documents (longer than the reader's recent-bytes ring) whose lines end with a lone CR, CRLF, LF
+    // or a mixture, with the error near the end: the reader's window has evicted most of the document, its
+    // first line number comes from the ring's count of evicted line breaks
+    for brk in ["\r", "\r\n", "\n", "mix"] {
+        for pad in 0..4usize {
+            let mut doc = String::new();
+            let mut n = 0usize;
+            let push_brk = |doc: &mut String, n: usize| match brk {
+                "mix" => doc.push_str(["\r", "\r\n", "\n"][n % 3]),
+                b => doc.push_str(b),
+            };
+            while doc.len() < h::RING_BUFFER_SIZE + h::MAX_READ_AHEAD + 700 + pad {
+                doc.push_str(&format!("k{n}: {}", n % 10));
+                if n == 3 { doc.push_str(&"0".repeat(pad)); }
+                push_brk(&mut doc, n);
+                n += 1;
+            }
+            doc.push_str("bad: zz");
+            push_brk(&mut doc, n);
+            for j in 0..3 { doc.push_str(&format!("t{j}: 1")); push_brk(&mut doc, n + 1 + j); }
+            let radius = 64usize;
+            let opts = || { let mut op = Options::default(); op.crop_radius = radius; op.with_snippet = true; op };
+            match guarded(|| serde_saphyr::from_str_with_options::<HashMap<String, i32>>(&doc, opts())) {
+                Some(Err(e)) => { o.count("errors.str.longcr"); o.render_all("str/longcr", &doc, &e, radius, false); }
+                Some(Ok(_)) => o.count("parsed_ok"),
+                None => o.fail("C17-entry-panic", "from_str_with_options panicked", &hex(&doc), "panic", "Ok or Err"),
+            }
+            match guarded(|| serde_saphyr::from_reader_with_options::<_, HashMap<String, i32>>(std::io::Cursor::new(doc.as_bytes()), opts())) {
+                Some(Err(e)) => { o.count("errors.reader.longcr"); o.render_all("reader/longcr", &doc, &e, radius, false); }
+                Some(Ok(_)) => o.count("parsed_ok"),
+                None => o.fail("C17-entry-panic", "from_reader_with_options panicked", &hex(&doc), "panic", "Ok or Err"),
+            }
+        }
+    }
     // multi-region errors: a validation report with two issues `gap` lines apart; every issue must be
     // shown with its own line
     for gap in 1..=6usize {
@@ -931,7 +987,7 @@ fn generate(a: &Args) -> i32 {
         "distinct_nontrivial": nontrivial,
         "oracle_renderings_checked": checks,
         "oracle_failure_classes": fails,
-        "rule": "hook-level, function by function (sanitize, is_clean, line_starts, col_to_byte, line_col_to_byte, next_char_boundary, crop_line_by_cols, crop_window_text, crop_source_window, own window renderer, with_snippet regions, ring trim, RingReader::get_recent): ALL texts up to length 4 (quick) / 5 (thorough) over {a, \\n, \\r, é, …, 😀, ESC, U+0085} for the per-text ops, all texts up to length 3/4 x rows x columns 0..4 for the position helpers, all lines up to length 3/4 x left,right in 0..5 (+huge) for crop_line_by_cols, sampled (row, col, radius in {0,1,2,64,usize::MAX}, mapping, span) for the window functions; generated structured texts with very long lines (4 KiB..17 KiB, ASCII and multi-byte), CRLF / lone CR, BOM, control characters, locations at / after end of text and line, radii {0,1,2,3,5,8,64,u32::MAX,usize::MAX}; all byte strings up to length 4/5 over {a,\\n,80,bf,c2,e2,f0,f5,ff} and random windows of valid streams for the ring trim. Non-trivial = distinct op whose implementation answer is not the identity/none/empty answer. Oracle (implementation only): every error of documents with control characters / YAML escapes in keys and values (unknown field, unknown variant, duplicate key, custom messages, scan errors, long lines, CRLF, BOM) from from_str and from_reader, rendered by Display, Default/Developer/User/custom formatter with snippets on (and off: totality only), and through the miette adapter (graphical no-colour + narratable); each output scanned for C0/DEL/C1, ≤ 5 shown lines, line width ≤ 2r+3, reported line shown, marker column.",
+        "rule": "hook-level, function by function (sanitize, is_clean, line_starts, col_to_byte, line_col_to_byte, next_char_boundary, crop_line_by_cols, crop_window_text, crop_source_window, own window renderer, with_snippet regions, ring trim, RingReader::get_recent): ALL texts up to length 4 (quick) / 5 (thorough) over {a, \\n, \\r, é, …, 😀, ESC, U+0085} for the per-text ops, all texts up to length 3/4 x rows x columns 0..4 for the position helpers, all lines up to length 3/4 x left,right in 0..5 (+huge) for crop_line_by_cols, sampled (row, col, radius in {0,1,2,64,usize::MAX}, mapping, span) for the window functions; generated structured texts with very long lines (4 KiB..17 KiB, ASCII and multi-byte), CRLF / lone CR, BOM, control characters, locations at / after end of text and line, radii {0,1,2,3,5,8,64,u32::MAX,usize::MAX}; all byte strings up to length 4/5 over {a,\\n,80,bf,c2,e2,f0,f5,ff} and random windows of valid streams for the ring trim. The real RingReader is driven over streams whose line breaks are LF, lone CR and CRLF (every third stream), with a lone CR / CRLF / CR CR LF / LF CR / CR CR placed at every offset around the eviction edge (CRLF pair evicted together or split) and CR as the last byte read. Non-trivial = distinct op whose implementation answer is not the identity/none/empty answer. Oracle (implementation only): every error of documents with control characters / YAML escapes in keys and values (unknown field, unknown variant, duplicate key, custom messages, scan errors, long lines, CRLF, BOM) from from_str and from_reader, plus documents longer than the reader's ring + read-ahead whose lines end with lone CR / CRLF / LF / a mixture and whose error is near the end (the reader window's first line number comes from the ring's count of evicted line breaks), rendered by Display, Default/Developer/User/custom formatter with snippets on (and off: totality only), and through the miette adapter (graphical no-colour + narratable); each output scanned for C0/DEL/C1, ≤ 5 shown lines, line width ≤ 2r+3, reported line shown, marker column.",
     }));
     0
 }
